@@ -18,6 +18,7 @@ and anything about the reasons marked `byReading` in the discharge table.  The f
 is: `C03_full_counterexample` (finding F-9, `Frame.size` contains the text of wall-clock readings).
 -/
 import PrimaiteModel.Lemmas.NondetDischarge
+import PrimaiteModel.Gen.SharedState
 
 namespace Primaite.Noninterf
 open Primaite.Gen.Nondet
@@ -28,18 +29,18 @@ open Primaite.Gen.Nondet
 seed and play any operation list: the canonical trajectory does not depend on the opaque environment. -/
 theorem C03_run_indep_of_env {ι ι' Cfg σ Act : Type} [DecidableEq ι] [DecidableEq ι'] (g : Fixed)
     (sim : Sim Cfg σ Act) (sched : Nat → Cfg) (seed : Nat) (ops : List (Op Act)) (ρ : Rho ι) (ρ' : Rho ι')
-    (hv : ρ.Valid) (hv' : ρ'.Valid) (hs : sim.Safe (StampLenAgree g ρ ρ')) :
+    (hv : ρ.Valid) (hv' : ρ'.Valid) (hs : sim.Safe g.seeds (StampLenAgree g ρ ρ')) :
     run g sim sched seed ops ρ = run g sim sched seed ops ρ' := by
   unfold run
   apply canon_runOps_eq g hv hv' sim sched hs ops
-  have e := interp_indep g hv hv' (sim.construct (sched 0)) { rng := g.seed seed } (hs.construct _)
+  have e := interp_indep g hv hv' (sim.construct (sched 0)) { rng := seedAll g seed } (hs.construct _)
   simp only [start, Proc.Agree, e, and_self]
 
 /-- The same at full strength for a simulator that never computes a size from an unseeded reading (what a repaired
 `Frame.size` would be): no hypothesis on the clock at all. -/
 theorem C03_run_indep_of_env_repaired_size {ι ι' Cfg σ Act : Type} [DecidableEq ι] [DecidableEq ι'] (g : Fixed)
     (sim : Sim Cfg σ Act) (sched : Nat → Cfg) (seed : Nat) (ops : List (Op Act)) (ρ : Rho ι) (ρ' : Rho ι')
-    (hv : ρ.Valid) (hv' : ρ'.Valid) (hs : sim.Safe False) :
+    (hv : ρ.Valid) (hv' : ρ'.Valid) (hs : sim.Safe g.seeds False) :
     run g sim sched seed ops ρ = run g sim sched seed ops ρ' :=
   C03_run_indep_of_env g sim sched seed ops ρ ρ' hv hv'
     ⟨fun c => (hs.construct c).mono False.elim, fun c => (hs.rebuild c).mono False.elim,
@@ -51,7 +52,7 @@ different positions in different environments) that are about to start the same 
 (schedule, episode index, s, operations) only. -/
 theorem C03_reseed_reproduces {ι ι' Cfg σ Act : Type} [DecidableEq ι] [DecidableEq ι'] (g : Fixed)
     (sim : Sim Cfg σ Act) (sched : Nat → Cfg) (ρ : Rho ι) (ρ' : Rho ι') (hv : ρ.Valid) (hv' : ρ'.Valid)
-    (hs : sim.Safe (StampLenAgree g ρ ρ')) (p p' : Proc σ) (he : p.episode = p'.episode) (s : Nat)
+    (hs : sim.Safe g.seeds (StampLenAgree g ρ ρ')) (p p' : Proc σ) (he : p.episode = p'.episode) (s : Nat)
     (ops : List (Op Act)) :
     canonRun [] (runOps g ρ sim sched p (.reset (some s) :: ops)) =
       canonRun [] (runOps g ρ' sim sched p' (.reset (some s) :: ops)) := by
@@ -75,7 +76,7 @@ theorem C03_reseed_reproduces {ι ι' Cfg σ Act : Type} [DecidableEq ι] [Decid
 played before it (same number of earlier resets `= episode index`), nor on the environment. -/
 theorem C03_reseed_history_irrelevant {ι Cfg σ Act : Type} [DecidableEq ι] (g : Fixed)
     (sim : Sim Cfg σ Act) (sched : Nat → Cfg) (ρ ρ' : Rho ι) (hv : ρ.Valid) (hv' : ρ'.Valid)
-    (hs : sim.Safe (StampLenAgree g ρ ρ')) (st st' : σ) (w w' : World) (e : Nat) (s : Nat) (ops : List (Op Act)) :
+    (hs : sim.Safe g.seeds (StampLenAgree g ρ ρ')) (st st' : σ) (w w' : World) (e : Nat) (s : Nat) (ops : List (Op Act)) :
     canonRun [] (runOps g ρ sim sched { episode := e, st := st, w := w } (.reset (some s) :: ops)) =
       canonRun [] (runOps g ρ' sim sched { episode := e, st := st', w := w' } (.reset (some s) :: ops)) :=
   C03_reseed_reproduces g sim sched ρ ρ' hv hv' hs { episode := e, st := st, w := w } { episode := e, st := st', w := w' } rfl s ops
@@ -85,9 +86,13 @@ theorem C03_reseed_history_irrelevant {ι Cfg σ Act : Type} [DecidableEq ι] (g
 /-- Full statement: no hypothesis on the clock (only the set consumers must be invariant). -/
 def C03_Full : Prop :=
   ∀ (Cfg σ Act : Type) (g : Fixed) (sim : Sim Cfg σ Act) (sched : Nat → Cfg) (seed : Nat) (ops : List (Op Act))
-    (ρ ρ' : Rho Nat), ρ.Valid → ρ'.Valid → sim.Safe True → run g sim sched seed ops ρ = run g sim sched seed ops ρ'
+    (ρ ρ' : Rho Nat), ρ.Valid → ρ'.Valid → sim.Safe g.seeds True → run g sim sched seed ops ρ = run g sim sched seed ops ρ'
 
-def demoFixed : Fixed := { next := fun s => (s * 7 + 3, s + 1), seed := id, textLen := isoTextLen }
+/-- a toy generator per family (python / numpy / torch are seeded, gymnasium's per-space generator is not) -/
+def demoFixed : Fixed :=
+  { next := fun f s => (s * 7 + 3 + (match f with | .py => 0 | .np => 1 | .torch => 2 | .space => 5), s + 1),
+    seed := fun f s => s * 4 + (match f with | .py => 0 | .np => 1 | .torch => 2 | .space => 3),
+    textLen := isoTextLen }
 
 /-- One link of bandwidth `bw` bytes per tick; a step sends one frame of 500 bytes plus its `sent_timestamp` text and
 reports whether the link accepted it (`Link.can_transmit_frame`). -/
@@ -105,7 +110,7 @@ theorem rhoWholeSecond_valid : rhoWholeSecond.Valid := ⟨fun _ _ h => h, fun _ 
 theorem rhoMicros_valid : rhoMicros.Valid := ⟨fun _ _ h => h, fun _ _ => List.Perm.refl _⟩
 theorem rhoReversed_valid : rhoReversed.Valid := ⟨fun _ _ h => h, fun _ l => List.reverse_perm l⟩
 
-theorem linkSim_safe (bw : Nat) (P : Prop) (hP : P) : (linkSim bw).Safe P where
+theorem linkSim_safe (bw : Nat) (S : Fam → Bool) (P : Prop) (hP : P) : (linkSim bw).Safe S P where
   construct _ := trivial
   rebuild _ := trivial
   step load _ := by
@@ -118,14 +123,14 @@ free capacity lies between the two sizes one process transmits and the other dro
 theorem C03_full_counterexample : ¬ C03_Full := by
   intro h
   have := h Unit Nat Unit demoFixed (linkSim 520) (fun _ => ()) 0 [.step ()] rhoWholeSecond rhoMicros
-    rhoWholeSecond_valid rhoMicros_valid (linkSim_safe 520 True trivial)
+    rhoWholeSecond_valid rhoMicros_valid (linkSim_safe 520 _ True trivial)
   exact absurd this (by decide)
 
 /-- The same pair of environments is harmless when all readings have texts of the same length … -/
 example : run demoFixed (linkSim 520) (fun _ => ()) 0 [.step (), .reset (some 3), .step ()] rhoMicros =
     run demoFixed (linkSim 520) (fun _ => ()) 0 [.step (), .reset (some 3), .step ()] rhoReversed :=
   C03_run_indep_of_env demoFixed _ _ _ _ _ _ rhoMicros_valid rhoReversed_valid
-    (linkSim_safe 520 _ (fun _ _ => rfl))
+    (linkSim_safe 520 _ _ (fun _ _ => rfl))
 
 /-- … and the hypotheses of the partial theorem are met by a non-trivial pair (different set orders, same text lengths). -/
 example : StampLenAgree demoFixed rhoMicros rhoReversed ∧ rhoMicros.perm 0 [1, 2] ≠ rhoReversed.perm 0 [1, 2] :=
@@ -140,7 +145,7 @@ def scanSim (consumer : List Nat → List Nat) : Sim Unit Unit (List Nat) where
   rebuild _ := .ret ((), [])
   step _ targets := .iterSet consumer targets fun visited => .ret ((), visited.map .val)
 
-theorem scanSim_sorted_safe (P : Prop) : (scanSim sortedIter).Safe P where
+theorem scanSim_sorted_safe (S : Fam → Bool) (P : Prop) : (scanSim sortedIter).Safe S P where
   construct _ := trivial
   rebuild _ := trivial
   step _ _ := ⟨sortedIter_invariant, fun _ => trivial⟩
@@ -154,7 +159,7 @@ theorem C03_raw_set_iteration_counterexample :
 theorem C03_sorted_scan_indep (ops : List (Op (List Nat))) (seed : Nat) {ι ι' : Type} [DecidableEq ι] [DecidableEq ι']
     (ρ : Rho ι) (ρ' : Rho ι') (hv : ρ.Valid) (hv' : ρ'.Valid) :
     run demoFixed (scanSim sortedIter) (fun _ => ()) seed ops ρ = run demoFixed (scanSim sortedIter) (fun _ => ()) seed ops ρ' :=
-  C03_run_indep_of_env demoFixed _ _ _ _ _ _ hv hv' (scanSim_sorted_safe _)
+  C03_run_indep_of_env demoFixed _ _ _ _ _ _ hv hv' (scanSim_sorted_safe _ _)
 
 example : run demoFixed (scanSim sortedIter) (fun _ => ()) 0 [.step [10, 1, 14]] rhoReversed = [[.val 1, .val 10, .val 14]] := by
   decide
@@ -179,6 +184,277 @@ example : run demoFixed idSim (fun _ => ()) 0 [.step (), .step (), .step ()] rho
 example : (runOps demoFixed rhoOdd idSim (fun _ => ()) (start demoFixed rhoOdd idSim (fun _ => ()) 0) [.step (), .step ()]) =
     [[.ident 1001, .val 1], [.ident 1003, .ident 1001, .val 0]] := by decide
 
+/-! ## the seeding path: `reset(seed=0)` re-seeds, `reset()` does not; seeding precedes construction; every family drawn from is seeded -/
+
+open Primaite.Gen in
+/-- the regenerated tests as model tests (`none` for a test the extractor could not classify) -/
+def toSeedTest : NondetSeeding.Test → Option SeedTest
+  | .isNone => some .isNone
+  | .isNotNone => some .isNotNone
+  | .truthy => some .truthy
+  | .falsy => some .falsy
+  | .eqInt n => some (.eqInt n)
+  | .ltInt n => some (.ltInt n)
+  | .other _ => none
+
+open Primaite.Gen in
+/-- the shape of `set_random_seed` + the guard in `reset`, as regenerated from session/environment.py -/
+def genShape : Option SeedShape := do
+  let a ← NondetSeeding.absent.mapM toSeedTest
+  let i ← NondetSeeding.invalid.mapM toSeedTest
+  let r ← NondetSeeding.resetGuard.mapM toSeedTest
+  pure { absent := a, absentGenerates := NondetSeeding.absentGenerates, invalid := i, resetGuard := r }
+
+open Primaite.Gen in
+/-- **Gen obligation.** The seeding code has exactly the shape the theorems below are about: `if seed is None or seed == -1:
+(generate or return None) elif seed < -1: raise`; `random.seed(seed)`, `np.random.seed(seed)` unconditionally and
+`th.manual_seed(seed)` under the torch-present test, all with the argument `seed`, which is not re-assigned; the function
+returns `seed`; `__init__` passes `(self.seed, self.generate_seed_value)` read from the episode-0 `game` options,
+unconditionally; `reset` passes `(seed, self.generate_seed_value)` under the single test `seed is not None`. -/
+theorem C03_gen_seed_shape :
+    genShape = some codeShape ∧
+    NondetSeeding.absentElseReturnsNone = true ∧ NondetSeeding.invalidRaises = true ∧ NondetSeeding.returnsSeed = true ∧
+    NondetSeeding.seedReassigned = [] ∧
+    NondetSeeding.seedCalls = [("py", "seed", []), ("np", "seed", []), ("torch", "seed", ["sys.modules['torch']"])] ∧
+    NondetSeeding.initSeedArgs = ["self.seed", "self.generate_seed_value"] ∧ NondetSeeding.initGuard = [] ∧
+    NondetSeeding.initSeedSource = "self.episode_scheduler(0).get('game', {}).get('seed')" ∧
+    NondetSeeding.initGenerateSource = "self.episode_scheduler(0).get('game', {}).get('generate_seed_value')" ∧
+    NondetSeeding.resetSeedArgs = ["seed", "self.generate_seed_value"] := by decide
+
+open Primaite.Gen in
+/-- **Gen obligation.** In `__init__` and in `reset` there is exactly one `set_random_seed` call and exactly one
+`PrimaiteGame.from_config` call, and the seeding call comes first (every draw of the construction follows the seeding);
+`reset` then runs `setup_for_episode`, `update_agents`, `_get_obs` in this order. -/
+theorem C03_gen_seed_before_build :
+    (NondetSeeding.initCalls.count "set_random_seed" = 1 ∧ NondetSeeding.initCalls.count "PrimaiteGame.from_config" = 1 ∧
+      NondetSeeding.initCalls.idxOf "set_random_seed" < NondetSeeding.initCalls.idxOf "PrimaiteGame.from_config") ∧
+    (NondetSeeding.resetCalls.count "set_random_seed" = 1 ∧ NondetSeeding.resetCalls.count "PrimaiteGame.from_config" = 1 ∧
+      NondetSeeding.resetCalls.idxOf "set_random_seed" < NondetSeeding.resetCalls.idxOf "PrimaiteGame.from_config") ∧
+    NondetSeeding.resetCalls.filter (fun c => c ∈ ["PrimaiteGame.from_config", "setup_for_episode", "update_agents", "_get_obs"]) =
+      ["PrimaiteGame.from_config", "setup_for_episode", "update_agents", "_get_obs"] ∧
+    NondetSeeding.rayResetSeedArgs = List.replicate NondetSeeding.rayResetCalls "seed" := by decide
+
+open Primaite.Gen in
+/-- is the family seeded by one of the calls in `set_random_seed` (with the argument `seed`)? A Generator derived from a
+numpy draw is as seeded as numpy's global generator. -/
+def famSeeded (f : Nondet.Fam) : Bool :=
+  let has (tag : String) := NondetSeeding.seedCalls.any fun c => c.1 == tag && c.2.1 == "seed"
+  match f with
+  | .py => has "py"
+  | .np | .derivedNp => has "np"
+  | .torch => has "torch"
+  | .entropy | .space => false
+
+set_option maxRecDepth 100000 in
+/-- **Gen obligation: every draw happens after seeding, from a seeded family.** Every draw site of the inventory is
+evaluated when a function is called (none at import time / in a class body, i.e. none before `set_random_seed` ran), and
+its generator family is one `set_random_seed` seeds — except the entropy draws inside `if generate_seed_value:`. -/
+theorem C03_gen_draw_families_seeded :
+    (facts.all fun f => match f with
+      | .draw fam atCall guarded => (guarded && fam == .entropy) || (atCall && famSeeded fam)
+      | .seedCall _ _ atCall => atCall
+      | _ => true) = true ∧
+    -- the model's table of seeded families is the regenerated one
+    (∀ f : Fam, demoFixed.seeds f = match f with | .py => famSeeded .py | .np => famSeeded .np | .torch => famSeeded .torch | .space => famSeeded .space) := by
+  refine ⟨by decide, fun f => by cases f <;> decide⟩
+
+/-- **What `env.reset(seed=x)` does to the generators, for EVERY `x`** (with `generate_seed_value = False`): a
+non-negative seed — 0 included — re-seeds with it; `None` and `-1` leave the generators alone; anything below `-1` raises. -/
+theorem C03_reset_seed_spec :
+    (∀ s : Nat, codeShape.resetAct (some (s : Int)) false = .seedWith s) ∧
+    codeShape.resetAct none false = .keep ∧ codeShape.resetAct (some (-1)) false = .keep ∧
+    (∀ n : Int, n < -1 → codeShape.resetAct (some n) false = .raise) := by
+  refine ⟨fun s => ?_, by decide, by decide, fun n hn => ?_⟩
+  · have h1 : ¬ ((s : Int) = -1) := by omega
+    have h2 : ¬ ((s : Int) < -1) := by omega
+    simp [codeShape, SeedShape.resetAct, SeedShape.setRandomSeed, SeedTest.eval, h1, h2]
+  · have h1 : ¬ (n = -1) := by omega
+    simp [codeShape, SeedShape.resetAct, SeedShape.setRandomSeed, SeedTest.eval, h1, hn]
+
+/-- the caller's `reset(seed=s)`, `s ≥ 0`, is the model's re-seeding reset — also for `s = 0` -/
+theorem toOps_reset_some {Act : Type} (s : Nat) (cs : List (COp Act)) :
+    codeShape.toOps false (.reset (some (s : Int)) :: cs) = .reset (some s) :: codeShape.toOps false cs := by
+  simp only [SeedShape.toOps, SeedShape.toOp, C03_reset_seed_spec.1 s]
+
+/-- the caller's `reset()` is the model's reset that leaves the generators alone -/
+theorem toOps_reset_none {Act : Type} (cs : List (COp Act)) :
+    codeShape.toOps false (.reset none :: cs) = .reset none :: codeShape.toOps false cs := by
+  simp only [SeedShape.toOps, SeedShape.toOp, C03_reset_seed_spec.2.1]
+
+/-- **reseed_reproduces, in the caller's vocabulary.** With the seeding code as it is (`C03_gen_seed_shape`), for EVERY seed
+value `s ≥ 0` — zero included — and every later call sequence (steps, resets with any `Optional[int]`, foreign draws):
+two processes in arbitrary states that are about to start the same episode index produce the same canonical trajectory
+after `env.reset(seed=s)`. -/
+theorem C03_code_reseed_reproduces {ι ι' Cfg σ Act : Type} [DecidableEq ι] [DecidableEq ι'] (g : Fixed)
+    (sim : Sim Cfg σ Act) (sched : Nat → Cfg) (ρ : Rho ι) (ρ' : Rho ι') (hv : ρ.Valid) (hv' : ρ'.Valid)
+    (hs : sim.Safe g.seeds (StampLenAgree g ρ ρ')) (p p' : Proc σ) (he : p.episode = p'.episode) (s : Nat)
+    (cs : List (COp Act)) :
+    canonRun [] (runOps g ρ sim sched p (codeShape.toOps false (.reset (some (s : Int)) :: cs))) =
+      canonRun [] (runOps g ρ' sim sched p' (codeShape.toOps false (.reset (some (s : Int)) :: cs))) := by
+  rw [toOps_reset_some]
+  exact C03_reseed_reproduces g sim sched ρ ρ' hv hv' hs p p' he s _
+
+/-- **The generators right after `reset(seed=s)` are the same in every process and after every history** (the rig's
+`rng` digest on the reset line is the implementation-side reading of this). -/
+theorem C03_generators_after_reseed {ι ι' Cfg σ Act : Type} [DecidableEq ι] [DecidableEq ι'] (g : Fixed)
+    (sim : Sim Cfg σ Act) (sched : Nat → Cfg) (ρ : Rho ι) (ρ' : Rho ι') (hv : ρ.Valid) (hv' : ρ'.Valid)
+    (hs : sim.Safe g.seeds (StampLenAgree g ρ ρ')) (p p' : Proc σ) (he : p.episode = p'.episode) (s : Nat) :
+    (doReset g ρ sim sched p (some s)).1.w.rng = (doReset g ρ' sim sched p' (some s)).1.w.rng ∧
+    (doReset g ρ sim sched p (some s)).1.st = (doReset g ρ' sim sched p' (some s)).1.st := by
+  obtain ⟨⟨_, hst, hw⟩, _⟩ := doReset_seed_rel g hv hv' sim sched hs p p' he s
+  exact ⟨congrArg World.rng hw, hst⟩
+
+/-- A simulator with one stochastic scripted agent: every step draws from family `f` and reports the draw. -/
+def drawSim (f : Fam) : Sim Unit Unit Unit where
+  construct _ := .ret ()
+  rebuild _ := .ret ((), [])
+  step _ _ := .rand f 99 fun r => .ret ((), [.val r])
+
+theorem drawSim_safe (f : Fam) (S : Fam → Bool) (hf : S f = true) (P : Prop) : (drawSim f).Safe S P where
+  construct _ := trivial
+  rebuild _ := trivial
+  step _ _ := ⟨hf, fun _ => trivial⟩
+
+/-- the seeding code with the test in `reset` replaced by a truthiness test (`if seed:`) -/
+def truthyShape : SeedShape := { codeShape with resetGuard := [.truthy] }
+
+/-- **Why the test must be `is not None`.** With `if seed:` the call `reset(seed=0)` does not re-seed: two processes that
+differ only in how many draws their history consumed play different episodes after `reset(seed=0)`; with the code's
+shape they play the same one. -/
+theorem C03_truthy_seed_test_counterexample :
+    truthyShape.resetAct (some 0) false = .keep ∧
+    canonRun [] (runOps demoFixed rhoMicros (drawSim .py) (fun _ => ()) { episode := 0, st := (), w := { rng := fun _ => 5 } }
+        (truthyShape.toOps false [.reset (some 0), .step ()])) ≠
+      canonRun [] (runOps demoFixed rhoMicros (drawSim .py) (fun _ => ()) { episode := 0, st := (), w := { rng := fun _ => 9 } }
+        (truthyShape.toOps false [.reset (some 0), .step ()])) ∧
+    canonRun [] (runOps demoFixed rhoMicros (drawSim .py) (fun _ => ()) { episode := 0, st := (), w := { rng := fun _ => 5 } }
+        (codeShape.toOps false [.reset (some 0), .step ()])) =
+      canonRun [] (runOps demoFixed rhoMicros (drawSim .py) (fun _ => ()) { episode := 0, st := (), w := { rng := fun _ => 9 } }
+        (codeShape.toOps false [.reset (some 0), .step ()])) := by decide
+
+/-- A simulator whose CONSTRUCTION draws (ProbabilisticAgent derives its generator, PeriodicAgent its first execution step
+inside `from_config`) and reports the draw at the first step. -/
+def buildDrawSim : Sim Unit Nat Unit where
+  construct _ := .rand .np 99 fun r => .ret r
+  rebuild _ := .rand .np 99 fun r => .ret (r, [])
+  step st _ := .ret (st, [.val st])
+
+/-- **Why seeding must precede the construction of the game.** If `reset` built the game first and seeded afterwards, the
+draws of the construction would come from the inherited generator state: after `reset(seed=3)` two processes with different
+histories report different values; with the code's order (`doReset`) they agree. -/
+theorem C03_build_before_seed_counterexample :
+    (doResetLate demoFixed rhoMicros buildDrawSim (fun _ => ()) { episode := 0, st := 0, w := { rng := fun _ => 5 } } (some 3)).1.st ≠
+      (doResetLate demoFixed rhoMicros buildDrawSim (fun _ => ()) { episode := 0, st := 0, w := { rng := fun _ => 9 } } (some 3)).1.st ∧
+    (doReset demoFixed rhoMicros buildDrawSim (fun _ => ()) { episode := 0, st := 0, w := { rng := fun _ => 5 } } (some 3)).1.st =
+      (doReset demoFixed rhoMicros buildDrawSim (fun _ => ()) { episode := 0, st := 0, w := { rng := fun _ => 9 } } (some 3)).1.st := by
+  decide
+
+def rhoEntropy7 : Rho Nat := { uuid := id, stamp := fun _ => 1, perm := fun _ l => l, entropy := fun k => 7 + k }
+theorem rhoEntropy7_valid : rhoEntropy7.Valid := ⟨fun _ _ h => h, fun _ _ => List.Perm.refl _⟩
+
+/-- **Why every family drawn from must be seeded (finding F-C03-1, repaired).** `RandomAgent.get_action` sampled from
+gymnasium's per-space generator, which nobody seeds: under two valid environments that differ only in what the OS hands out,
+the same seed and actions give different trajectories. The same simulator drawing from a seeded family is independent. -/
+theorem C03_unseeded_family_counterexample :
+    run demoFixed (drawSim .space) (fun _ => ()) 0 [.step ()] rhoMicros ≠
+      run demoFixed (drawSim .space) (fun _ => ()) 0 [.step ()] rhoEntropy7 ∧
+    run demoFixed (drawSim .np) (fun _ => ()) 0 [.step ()] rhoMicros =
+      run demoFixed (drawSim .np) (fun _ => ()) 0 [.step ()] rhoEntropy7 := by
+  refine ⟨by decide, ?_⟩
+  exact C03_run_indep_of_env demoFixed _ _ _ _ _ _ rhoMicros_valid rhoEntropy7_valid (drawSim_safe _ _ rfl _)
+
+/-- **"Nothing else consumes the global generators" is a hypothesis, not a consequence.** A foreign draw (another
+environment instance, the training loop) between `reset(seed=s)` and a step changes the episode; foreign draws BEFORE the
+re-seeding do not (`C03_reseed_reproduces` quantifies over arbitrary earlier generator states). -/
+theorem C03_foreign_draw_counterexample :
+    canonRun [] (runOps demoFixed rhoMicros (drawSim .py) (fun _ => ()) { episode := 0, st := (), w := {} }
+        [.reset (some 3), .step ()]) ≠
+      canonRun [] (runOps demoFixed rhoMicros (drawSim .py) (fun _ => ()) { episode := 0, st := (), w := {} }
+        [.reset (some 3), .foreign .py, .step ()]) ∧
+    canonRun [] (runOps demoFixed rhoMicros (drawSim .py) (fun _ => ()) { episode := 0, st := (), w := {} }
+        [.foreign .py, .reset (some 3), .step ()]) =
+      [[]] ++ canonRun [] (runOps demoFixed rhoMicros (drawSim .py) (fun _ => ()) { episode := 0, st := (), w := {} }
+        [.reset (some 3), .step ()]) := by decide
+
+/-- non-vacuity of `C03_code_reseed_reproduces`: the two episodes really are re-seeded, and a different seed gives a different one -/
+example : canonRun [] (runOps demoFixed rhoMicros (drawSim .py) (fun _ => ()) { episode := 0, st := (), w := { rng := fun _ => 5 } }
+      (codeShape.toOps false [.reset (some 0), .step ()])) = [[], [.val 3]] ∧
+    canonRun [] (runOps demoFixed rhoMicros (drawSim .py) (fun _ => ()) { episode := 0, st := (), w := { rng := fun _ => 5 } }
+      (codeShape.toOps false [.reset (some 1), .step ()])) = [[], [.val 31]] ∧
+    canonRun [] (runOps demoFixed rhoMicros (drawSim .py) (fun _ => ()) { episode := 0, st := (), w := { rng := fun _ => 5 } }
+      (codeShape.toOps false [.reset none, .step ()])) = [[], [.val 38]] := by decide
+
+
+/-! ## process-global state that survives between games of one interpreter
+
+The process model builds every game from the episode's configuration alone (`Sim.construct : Cfg → Prog σ`): nothing of an
+earlier game — of the same environment or of another one that ran earlier in the process — is an input.  What ties that to
+the code is (a) the shared-state inventory `Gen/SharedState.lean` (C04's extractor, imported read-only): every class-level /
+module-level object that is WRITTEN AT RUN TIME, with its writers, (b) the committed discharge below, and (c) the rig's
+process-history workers (other games are built, played and closed in the interpreter before the case). -/
+
+/-- why a run-time written process-global cannot carry anything from an earlier game into the trajectory -/
+inductive GlobalDischarge where
+  /-- `PrimaiteGame.from_config` assigns it UNCONDITIONALLY (a top-level statement, before any `return`) in every build, and both
+  `__init__` and `reset` go through `from_config` (`C03_gen_seed_before_build`): whatever an earlier game left is overwritten
+  before the new game reads it (that no reader runs before the assignment inside `from_config` is C04's `C04_gen_write_order`) -/
+  | rewrittenAtEveryBuild
+  /-- only read to decide where / whether log files and tables are written (by reading; C04's role table marks every reader a sink) -/
+  | sinkOnly
+  /-- written only while the module is imported or by the command-line tools, never by an operation of an environment (by reading) -/
+  | notWrittenByAnOperation
+  deriving DecidableEq, Repr
+
+/-- a build whose process-global part is assigned unconditionally from the configuration -/
+def buildUncond {Cfg G R : Type} (write : Cfg → G) (rest : G → Cfg → R) (_old : G) (c : Cfg) : R × G := (rest (write c) c, write c)
+
+/-- a build that assigns the process-global only when the configuration has the (optional) section -/
+def buildCond {Cfg G R : Type} (has : Cfg → Bool) (write : Cfg → G) (rest : G → Cfg → R) (old : G) (c : Cfg) : R × G :=
+  let g := if has c then write c else old
+  (rest g c, g)
+
+/-- **Lemma for the kind `rewrittenAtEveryBuild`.** An unconditional assignment makes the build a function of the configuration
+alone: whatever the process did before (`old`, `old'` arbitrary), the game built and the global left behind are the same. -/
+theorem C03_unconditional_global_write_forgets_history {Cfg G R : Type} (write : Cfg → G) (rest : G → Cfg → R) (old old' : G) (c : Cfg) :
+    buildUncond write rest old c = buildUncond write rest old' c := rfl
+
+/-- **Why the assignment must be unconditional (seeded change C03-c / C04-b).** With "assign only if the scenario has a
+non-empty section", a scenario WITHOUT the section builds a different game in a warm interpreter (an earlier game switched
+capture on) than in a fresh one. -/
+theorem C03_conditional_global_write_counterexample :
+    buildCond (fun c : Option Bool => c.isSome) (fun c => c.getD false) (fun g _ => g) true none ≠
+      buildCond (fun c : Option Bool => c.isSome) (fun c => c.getD false) (fun g _ => g) false none := by decide
+
+open Primaite.Gen.SharedState in
+/-- site ↦ reason for every process-global the shared-state inventory shows written at run time -/
+def globalsTable : List (String × GlobalDischarge) := [
+  ("game.agent.observations.nic_observations:NICObservation.capture_nmne", .rewrittenAtEveryBuild),
+  ("primaite:PRIMAITE_CONFIG", .notWrittenByAnOperation),
+  ("simulator.network.airspace:AirSpaceFrequency._registry", .notWrittenByAnOperation),
+  ("simulator.network.hardware.base:NetworkInterface.nmne_config", .rewrittenAtEveryBuild),
+  ("simulator.system.core.packet_capture:PacketCapture._logger_instances", .sinkOnly),
+  ("simulator:SIM_OUTPUT", .sinkOnly) ]
+
+open Primaite.Gen.SharedState in
+/-- **Gen obligation (inventory kind "module / class-level mutable state written at run time").** The run-time written
+process-globals are exactly the committed six, each with exactly the committed writer functions (a new global, or a new
+function writing one, breaks this); and every global discharged `rewrittenAtEveryBuild` has `PrimaiteGame.from_config` among its
+UNCONDITIONAL writers — an assignment moved under an `if` (only when the scenario has the section) breaks it. -/
+theorem C03_process_globals_discharged :
+    ((entries.filter fun e => !e.writers.isEmpty).map fun e => (e.name, e.writers.map fun i => fns.getD i "?")) =
+      [ ("game.agent.observations.nic_observations:NICObservation.capture_nmne", ["game.game:PrimaiteGame.from_config"]),
+        ("primaite:PRIMAITE_CONFIG", ["utils.cli.dev_cli:config_callback", "utils.cli.dev_cli:disable", "utils.cli.dev_cli:enable",
+                                      "utils.cli.dev_cli:path"]),
+        ("simulator.network.airspace:AirSpaceFrequency._registry", ["simulator.network.airspace:AirSpaceFrequency.__init__"]),
+        ("simulator.network.hardware.base:NetworkInterface.nmne_config", ["game.game:PrimaiteGame.from_config"]),
+        ("simulator.system.core.packet_capture:PacketCapture._logger_instances",
+          ["simulator.system.core.packet_capture:PacketCapture.clear", "simulator.system.core.packet_capture:PacketCapture.setup_logger"]),
+        ("simulator:SIM_OUTPUT", ["session.io:PrimaiteIO.__init__", "simulator.network.networks:network_simulator_demo_example"]) ] ∧
+    (entries.filter fun e => !e.writers.isEmpty).map (·.name) = globalsTable.map (·.1) ∧
+    (globalsTable.all fun t => t.2 != .rewrittenAtEveryBuild ||
+      (entries.any fun e => e.name == t.1 && (e.uncondWriters.map fun i => fns.getD i "?").contains "game.game:PrimaiteGame.from_config")) = true := by
+  decide +kernel
+
 /-! ## the translator tie: every site of the regenerated inventory is discharged -/
 
 set_option maxRecDepth 100000 in
@@ -189,17 +465,45 @@ theorem C03_inventory_discharged : sites = table.map (·.1) := by decide
 /-- Every reason used in the table is backed by its lemma (or is marked `byReading`). -/
 theorem C03_discharges_justified : ∀ e ∈ table, e.2.Justified := fun e _ => Discharge.justified e.2
 
-/-- The set iterations that rest on a lemma (not on reading): all `setIter` sites except the int-hashed port sets and the
-cycle check. -/
+/-- Every set iteration rests on a lemma (one of them, the never-written set, on a mechanical fact + lemma) except the two
+int-hashed port sets (trusted CPython fact); the cycle check is discharged by C10's theorem since this round. -/
 theorem C03_set_iterations_by_lemma :
-    ((table.filter fun e => e.1.kind == .setIter && !e.2.byReading).length,
-     (table.filter fun e => e.1.kind == .setIter && e.2.byReading).map (·.2)) =
-    (8, [.setCycleCheck, .setIntHash, .setIntHash]) := by decide
+    ((table.filter fun e => e.1.kind == .setIter && (e.2.basis == .lemma || e.2.basis == .mechanical)).length,
+     (table.filter fun e => e.1.kind == .setIter && e.2.basis == .trusted).map (·.2)) =
+    (9, [.setIntHash, .setIntHash]) := by decide
 
-/-- How the 63 discharges split: by lemma / by reading (incl. trusted CPython facts) / attributed to the open finding. -/
+/-- How the 68 discharges split: by lemma / by a mechanical Gen fact + kind lemma / mechanical fact + trusted runtime fact /
+attributed to the open finding. (Before this round: 30 by lemma, 28 by reading, 4 open finding.) -/
 theorem C03_discharge_counts :
-    (table.length, (table.filter fun e => e.2.byReading).length, (table.filter fun e => e.2 == .readingLenF9).length) = (63, 29, 4) := by
+    (table.length, (table.filter fun e => e.2.basis == .lemma).length, (table.filter fun e => e.2.basis == .mechanical).length,
+     (table.filter fun e => e.2.basis == .trusted).length, (table.filter fun e => e.2.basis == .openFinding).length) =
+    (68, 17, 40, 7, 4) := by
   decide
+
+set_option maxRecDepth 100000 in
+/-- **The mechanical premises hold on the current source**: for every site, the regenerated FACT supports the reason the
+table gives (constant secret length, reading sinks ⊆ {path, show, log}, draw from a seeded family at call time, seeding call
+with argument `seed`, entropy draw only under `generate_seed_value`, `hash()` only as `__hash__`, module outside the runtime
+import closure, `exclude=` of `model_dump`, int-valued set elements, uses of a declared set listed, `==`-only text use). -/
+theorem C03_facts_support_discharges :
+    facts.length = table.length ∧ ((table.zip facts).all fun e => e.1.2.supportedBy e.2) = true := by decide
+
+set_option maxRecDepth 100000 in
+/-- Every iteration / escape of a declared set name (indices listed by the extractor) is a site with a discharge of its own. -/
+theorem C03_decl_uses_discharged :
+    ((table.zip facts).all fun e =>
+      match e.1.2, e.2 with
+      | .setDeclCovered, .declUses idx => idx.all fun i =>
+          match table[i]? with
+          | some (s, d) => (s.kind == .setIter || s.kind == .setEscape) && d != .setDeclCovered
+          | none => false
+      | _, _ => true) = true := by decide
+
+set_option maxRecDepth 100000 in
+/-- No identifier is ordered, and the only uses of an identifier's TEXT are the two `==`-only ones. -/
+theorem C03_identifier_uses :
+    ((sites.filter fun s => s.kind == .idOrder).length, (table.filter fun e => e.1.kind == .idText).map (·.2)) =
+    (0, [.idTextEqOnly, .idTextEqOnly]) := by decide
 
 /-- Exactly the sites attributed to the open finding F-9. -/
 theorem C03_f9_sites : (table.filter fun e => e.2 == .readingLenF9).map (fun e => (e.1.file, e.1.scope)) =
